@@ -133,6 +133,10 @@ def judge(res, kind, tree, info, r, profile, rng, B):
     if kind != "const" or info != "general":
         res.nontriv(common.sha(tree))
     res.count("kind:%s" % kind)
+    if kind == "big":
+        res.counters["max_tree_nodes"] = max(res.counters.get("max_tree_nodes", 0), out.get("in_count", 0))
+        if out.get("in_count", 0) > 250:
+            res.count("trees_over_250_nodes")
     if kind == "variant":
         res.count("constructor:%s" % info)
     res.count("op:%s" % root)
@@ -244,6 +248,36 @@ def gen(shard_no, nshards, seed, tier):
         if idx % nshards == shard_no:
             yield "variant", [tag], tag
             yield "variant", ["sub", [tag], ["add", te.const(1), te.const(2)]], tag
+    # (ii-c) big trees: hundreds to thousands of nodes (balanced, and combs whose teeth are small sub-trees), all
+    # constant or with a single opaque leaf somewhere - sizes on both sides of the default value-size limit of 250
+    def balanced(depth, ops, leafgen):
+        if depth == 0:
+            return leafgen()
+        op = rng.choice(ops)
+        if op in te.UN:
+            return [op, balanced(depth - 1, ops, leafgen)]
+        return [op, balanced(depth - 1, ops, leafgen), balanced(depth - 1, ops, leafgen)]
+    safe_ops = ["add", "mul", "sub", "and", "or", "xor", "not", "div", "mod", "shl", "shr", "lt", "eq", "iszero"]
+    for bi in range(24 if tier == "quick" else 400):
+        idx += 1
+        if idx % nshards != shard_no:
+            continue
+        shape = rng.choice(["balanced", "balanced", "comb"])
+        opaque_at = [rng.random() < 0.4]
+
+        def leafgen():
+            if opaque_at[0] and rng.random() < 0.02:
+                opaque_at[0] = False
+                return leaf(0)
+            return te.const(rng.choice(small))
+        if shape == "balanced":
+            t = balanced(rng.choice([6, 7, 7, 8, 8, 9]), safe_ops, leafgen)
+        else:
+            t = balanced(3, safe_ops, leafgen)
+            for _ in range(rng.choice([20, 40, 60, 90])):
+                t = [rng.choice(["add", "xor", "mul"]), t, balanced(rng.choice([1, 2, 3]), safe_ops, leafgen)] \
+                    if rng.random() < 0.5 else [rng.choice(["add", "xor", "mul"]), balanced(rng.choice([1, 2, 3]), safe_ops, leafgen), t]
+        yield "big", t, "big-%s" % shape
     # (iii) random trees
     n = (900 if tier == "quick" else 60000)
     for i in range(n):
@@ -318,7 +352,8 @@ def run(tier, seed, t0):
         "all 21 foldable operators x operand pairs from the boundary set (0,1,2,255..257,2^32,2^64,2^k and 2^k+-1 for "
         "k in the listed set [all of 7..255 in the thorough tier], MIN, MAX, -1) plus random words; every operator "
         "with one or two opaque operands in each position; random trees to depth 4 mixing constants, opaque leaves "
-        "and non-foldable nodes, compared under 5 valuations; rel and dev profiles. distinct = distinct tree; "
+        "and non-foldable nodes, compared under 5 valuations; balanced and comb-shaped trees of up to ~1000 nodes (all "
+        "constant, or with one opaque leaf); rel and dev profiles. distinct = distinct tree; "
         "non-trivial = not a plain in-range constant pair (boundary operand class, opaque operand, or random tree)",
         t0, ["vlib/treeeval.py implements EVM word arithmetic correctly (Python big ints)",
              "non-arithmetic nodes are uninterpreted functions of their children"], min_judged=20000,
